@@ -140,6 +140,18 @@ Proof.
   destruct (Bool.eqb il il'); [apply IH; exact H|exact H].
 Qed.
 
+Lemma nn_sort_by cm x : nn x -> nn (spec_sort_by cm x).
+Proof.
+  induction x as [|s|a l IH|il d l IH] using plain_ind2; intro H; try exact H.
+  rewrite spec_sort_by_tab. apply nn_tab. apply nn_tab in H. unfold nnl in *.
+  rewrite forallb_forall in *. intros y0 Hy0.
+  apply (Permutation.Permutation_in _ (stable_sort_perm (scmp_le cm il) _)) in Hy0.
+  apply in_map_iff in Hy0 as ([k z] & <- & Hz).
+  rewrite Forall_forall in IH. specialize (IH (k, z) Hz). specialize (H (k, z) Hz). simpl in *.
+  destruct z as [| | |il' [|] l']; try exact H.
+  destruct (Bool.eqb il il'); [apply IH; exact H|exact H].
+Qed.
+
 Lemma nn_spec_at p g : (forall x, nn x -> nn (g x)) -> forall t, nn t -> nn (spec_at p g t).
 Proof.
   intro Hg. induction p as [|s p IH]; intros t H; [apply Hg; exact H|].
@@ -171,7 +183,7 @@ Qed.
 
 Theorem spec_apply_no_none o x : nn x -> nn (spec_apply o x).
 Proof.
-  intro H. destruct o as [q k v|q k|q k|q k|q v|q i v|q i v|q i|q|q i|q|q|q k|q k|q k|ks y]; simpl.
+  intro H. destruct o as [q k v|q k|q k|q k|q v|q i v|q i v|q i|q|q i|q|q|q k|q k|q k|ks y|q cm]; simpl.
   - apply nn_spec_at; [|exact H]. apply nn_on_tab. intros l Hl. apply nnl_put; [apply nn_pv|exact Hl].
   - apply nn_spec_at; [|exact H]. apply nn_on_std_tab. intros l Hl. apply nnl_put; [reflexivity|exact Hl].
   - apply nn_spec_at; [|exact H]. apply nn_on_std_tab. intros l Hl. apply nnl_put; [reflexivity|exact Hl].
@@ -188,6 +200,7 @@ Proof.
   - apply nn_spec_at; [|exact H]. apply nn_on_std_tab. intros l Hl. rewrite e_upd_rec. apply nnl_r_upd; [apply nn_into_table|exact Hl].
   - apply nn_spec_at; [|exact H]. apply nn_on_std_tab. intros l Hl. rewrite e_upd_rec. apply nnl_r_upd; [apply nn_into_aot|exact Hl].
   - apply nn_iset; [|left; exact H]. destruct y; [apply nn_pv|reflexivity].
+  - apply nn_spec_at; [|exact H]. apply nn_sort_by.
 Qed.
 
 Theorem step_no_none : forall t o t', apply o t = Some t' -> no_none (abs t) = true -> no_none (abs t') = true.
